@@ -231,5 +231,9 @@ Proof.
   cbn [bev_step]. rewrite C1, X1. cbn [negb andb]. rewrite !Z.eqb_refl, eqb_reflx. discriminate.
 Qed.
 
-Lemma done_container_returns s : done_seen s = true -> is_idle s = true -> enabled s CT_EXIT.
-Proof. intros D I. unfold enabled, step. rewrite D, I. discriminate. Qed.
+Lemma done_container_returns s : done_seen s = true -> is_idle s = true ->
+  (auto_mode s = false \/ final_done s = true \/ errored s = true) -> enabled s CT_EXIT.
+Proof.
+  intros D I H. unfold enabled, step. rewrite D, I.
+  destruct H as [H|[H|H]]; rewrite H; cbn; rewrite ?orb_true_r; discriminate.
+Qed.
